@@ -203,7 +203,7 @@ func runC15(ctx *core.Ctx) {
 				n := []int{4096, 8192, 4095, 4097, 8191, 8193}[r.Intn(6)]
 				in = b.String()[:n]
 			case 1: // whitespace only
-				in = gen.Pick(r, []string{" ", "\n", "\t \r\n", "  ", "\f", " ", "  ", "\x0b"})
+				in = gen.Pick(r, []string{"\r\u00a0\r\n", "\u00a0\r", "\u2028\r\n", "\u3000\r", "\r\n\u0085", " \r ", "\x0b\r", " ", "\n", "\t \r\n", "  ", "\f", " ", "  ", "\x0b"})
 			case 2:
 				in = gen.Pick(r, []string{"", "a", "<", "&", "\x00", "<a", "&am"})
 			}
